@@ -120,6 +120,7 @@ class Registry:
             return VInt(pos(vals.key_term(d, a[1].val if isinstance(a[1], VOpt) else a[1])))
 
         self.spec_natives["keys_list"] = _keys_list
+        self.spec_natives["items_list"] = lambda it, a, k: it.enum_map(it.deref(a[0]))[1]
         self.spec_natives["idx_of"] = _idx_of
         from .strings import uf as _uf
 
